@@ -87,7 +87,14 @@ def build_queries(leaf, subscriptions=False):
          "fragment NodeFrag on Node { id nd ... on NA { extraA } }",
          "query Inputs($i: In, $l: [In!], $r: InReq) { in1(i: $i, l: $l, r: $r) }",
          # a NON-NULL abstract field under @include: generated as Optional[Union[...]] = None
-         "query Cond($c: Boolean!) { nodeReq @include(if: $c) { id nb nd ... on NA { extraA } ... on NB { extraB } } }"]
+         "query Cond($c: Boolean!) { nodeReq @include(if: $c) { id nb nd ... on NA { extraA } ... on NB { extraB } } }",
+         # the same three shapes INSIDE the sub-language of C07_parse_once_op (Proofs/ResultsRunP.v op_ok): no named
+         # spreads (they become mixin base classes), __typename selected explicitly at abstract positions
+         f"query ResultsPlain {{ obj {{ {allf} child {{ {some} child {{ sb0 }} }} kids {{ sd2 }} }} }}",
+         "query AbstractPlain { node { __typename id nb nd ... on NA { extraA } ... on NB { extraB } } "
+         "nodes { __typename id nd ... on NA { extraA } } "
+         "u { __typename ... on NA { nb extraA } ... on NB { extraB } } }",
+         "query CondPlain($c: Boolean!) { nodeReq @include(if: $c) { __typename id nb nd ... on NA { extraA } ... on NB { extraB } } }"]
     for s in SCALARS:
         vs = [(n, t) for n, t in leaf if n.startswith(s.lower())]
         q.append(f"query Echo{s}(" + ", ".join(f"${n}: {t}" for n, t in vs) + ") { echo(" +
@@ -573,6 +580,15 @@ def drive(ctx, g, gs, ssx, leaf, n_rounds):
             r = drv.ask({"cmd": "call_args", "method": "results", "args": {}, "response_body": {"data": data},
                               "dump_result": True})
             rows.append(("results", mode, data, r))
+            if data["obj"] is not None and data["obj"]["child"] is not None:
+                ptop = dict(top, child={k: v for k, v in top["child"].items() if k in some or k == "child"},
+                            kids=[{"sd2": kd["sd2"]} for kd in top["kids"]])
+            else:
+                ptop = top
+            pdata = {"obj": ptop if data["obj"] is not None else None}
+            r = drv.ask({"cmd": "call_args", "method": "results_plain", "args": {}, "response_body": {"data": pdata},
+                         "dump_result": True})
+            rows.append(("results_plain", mode, pdata, r))
 
             def node(kind):
                 d = {"__typename": kind, "id": "id-1", "nb": gen.response(gs.type_map["SB"], mode),
@@ -598,10 +614,16 @@ def drive(ctx, g, gs, ssx, leaf, n_rounds):
             r = drv.ask({"cmd": "call_args", "method": "abstract", "args": {}, "response_body": {"data": data},
                               "dump_result": True})
             rows.append(("abstract", mode, data, r))
+            r = drv.ask({"cmd": "call_args", "method": "abstract_plain", "args": {}, "response_body": {"data": data},
+                         "dump_result": True})
+            rows.append(("abstract_plain", mode, data, r))
             data = {"nodeReq": node(rng.choice(["NA", "NB"]))}
             r = drv.ask({"cmd": "call_args", "method": "cond", "args": {"c": True}, "response_body": {"data": data},
                               "dump_result": True})
             rows.append(("cond", mode, data, r))
+            r = drv.ask({"cmd": "call_args", "method": "cond_plain", "args": {"c": True}, "response_body": {"data": data},
+                         "dump_result": True})
+            rows.append(("cond_plain", mode, data, r))
             # ---- top-level arguments
             for s in SCALARS:
                 vs = [(n, gs.type_map["Obj"].fields[n].type) for n, _t in leaf if n.startswith(s.lower())]
@@ -667,10 +689,15 @@ def models_in(gs, v):
     return []
 
 
+RESPONSE_KINDS = ("results", "abstract", "cond", "results_plain", "abstract_plain", "cond_plain")
+
+
 def whole_response_logs(ctx, g, gs, rows):
     """K2/K3 for Py/ParseLog.v: the model's parse log of validating each driven response against the classes
     Model/Results.v generates for the operation (C01's K1 ties those classes to the generated modules) vs the REAL log
-    of the instrumented parse functions; the uniqueness guard of C07_parse_once_response is evaluated on every payload."""
+    of the instrumented parse functions.  The hypotheses of C07_parse_once_op (op_ok with distinct Python names, a
+    conformant duplicate-free response) are evaluated per case; where they fail the uniqueness guard of
+    C07_parse_once_response is evaluated instead."""
     from graphql import FragmentDefinitionNode, OperationDefinitionNode
     from ..canon import encode
 
@@ -681,7 +708,8 @@ def whole_response_logs(ctx, g, gs, rows):
     cfg = g.res.get("config", {})
     C = [cfg.get("convert_to_snake_case", True), encode.scalars_cfg(cfg)]
     es, ef = encode.schema(gs), [encode.frag(f) for f in frs]
-    opname = {"results": "Results", "abstract": "Abstract", "cond": "Cond"}
+    opname = {"results": "Results", "abstract": "Abstract", "cond": "Cond",
+              "results_plain": "ResultsPlain", "abstract_plain": "AbstractPlain", "cond_plain": "CondPlain"}
     todo = [(kind, data, r) for kind, _mode, data, r in rows if kind in opname and not r.get("exc")]
     if not todo:
         return
@@ -691,13 +719,19 @@ def whole_response_logs(ctx, g, gs, rows):
         if res[0] != "ok":
             run.dist("whole_response_log", f"model-refuses:{kind}:{str(res[1])[:40]}")
             continue
-        plog_m, pocc_m, uniq_m, acc_m = res[1][0]
+        plog_m, pocc_m, uniq_m, acc_m, thm_m = res[1][0]
         rep = {"config": g.sc.config, "operation": kind, "response": data}
         real = [canon_logged(e[2]) for e in (r.get("log_call") or []) if e[0] == "parse"]
         unlogged = {SCALARS[s]["type"].rsplit(".", 1)[-1] for s in UNLOGGED}
         mod = [sx_json(e[1]) for e in plog_m if e[0] not in unlogged]
         occ = [sx_json(e[1]) for e in pocc_m if e[0] not in unlogged]
         run.dist("whole_response_log", f"{kind}:uniq={uniq_m}:accepts={acc_m}")
+        # thm_m: every hypothesis of C07_parse_once_op holds of this (operation, response) - the theorem, not the
+        # evaluated guard, then gives acceptance and the permutation; outside (mixins, spreads beyond the sub-language,
+        # colliding Python names) the evaluated guard below is what covers the case
+        run.dist("whole_response_in_theorem", f"{kind}:{thm_m}")
+        if thm_m == "t" and (uniq_m != "t" or acc_m != "t"):
+            run.broken("extraction", f"whole response ({kind}): the extracted model contradicts C07_parse_once_op (uniq={uniq_m} accepts={acc_m})")
         if acc_m != "t":
             argenc.k1v(run, f"K2 whole response ({kind}): the model's classes do not accept a response the real classes accepted", rep)
             continue
@@ -735,7 +769,7 @@ def evaluate(ctx, g, gs, ssx, rows):
         log = [[e[1], canon_logged(e[2])] for e in (r.get("log_call") or [])]
         ser_log = [e for e, raw in zip(log, r.get("log_call") or []) if raw[0] == "ser"]
         par_log = [e for e, raw in zip(log, r.get("log_call") or []) if raw[0] == "parse"]
-        if kind in ("results", "abstract", "cond"):
+        if kind in RESPONSE_KINDS:
             data = payload
             run.nontrivial_case(hash((cfgname, kind, json.dumps(data, sort_keys=True))))
             rep["response"] = data
